@@ -126,6 +126,22 @@ def random_network(rng, n: int | None = None) -> dict:
     return {"points": pts, "energies": energies, "edges": [list(e) for e in edges]}
 
 
+def close_distance_network(rng) -> dict:
+    """a landscape of large extent whose minima sit near a lattice (converged minima of a periodic surface):
+    the candidate neighbours of a minimum are at distances that differ only in the 7th-9th significant figure,
+    all exactly representable, row-wise distinct"""
+    n = rng.choice([4, 5, 6, 8, 9])
+    net = random_network(rng, n)
+    while True:
+        scale = rng.choice([64.0, 1024.0])
+        cells = rng.sample([(a, b) for a in range(4) for b in range(4)], n)
+        pts = [[scale * a + rng.randrange(-8, 9) / 65536.0, scale * b + rng.randrange(-8, 9) / 65536.0] for a, b in cells]
+        if generic(rows_of(pts)):
+            break
+    net["points"] = pts
+    return net
+
+
 def build(net: dict):
     from topsearch.data.kinetic_transition_network import KineticTransitionNetwork
     from topsearch.data.coordinates import StandardCoordinates
@@ -427,6 +443,7 @@ def predicates(ctx: Ctx) -> None:
     rng = ctx.rng
     deep = getattr(ctx, "deep_search", False)
     cases = [(corpus_net(k), N) for k in CORPUS for N in (1, 2, 5)]
+    cases += [(close_distance_network(rng), None) for _ in range(ctx.scale(12, 80) * (3 if deep else 1))]
     cases += [(random_network(rng), None) for _ in range(ctx.scale(60, 500) * (5 if deep else 1))]
     for net, N in cases:
         n = len(net["points"])
